@@ -617,7 +617,9 @@ func c04R5(p *engine.Prog, r *engine.Report, sm *stateModel) {
 // cache-through accessor: the same function looks the address up in balancesCache (and, for nested
 // environments, asks the parent) first. Any other direct read sees a balance that ignores debits made
 // earlier in the same transaction — Commit then writes the stale sum back (coins minted).
-func c04R7(p *engine.Prog, r *engine.Report) {
+func c04R7(p *engine.Prog, r *engine.Report) { c04R7rule(p, r, "C04-R7") }
+
+func c04R7rule(p *engine.Prog, r *engine.Report, rule string) {
 	n := 0
 	for _, pkg := range []string{"vm/env", "vm/wasm"} {
 		for _, f := range funcsOfPkg(p, pkg) {
@@ -656,10 +658,12 @@ func c04R7(p *engine.Prog, r *engine.Report) {
 					}
 				}
 				ok := len(guards) > 0 && engine.OnlyThroughPass(f, c.Block(), guards)
-				r.Check(ok, "C04-R7", engine.RelName(f)+"|committed balance read only on a balancesCache miss", p.InstrPos(c), "cache-through accessor", "reads the committed balance of an address without consulting the per-transaction balance buffer first: a debit made earlier in the same transaction is ignored and Commit writes the stale sum back")
+				r.Check(ok, rule, engine.RelName(f)+"|committed balance read only on a balancesCache miss", p.InstrPos(c), "cache-through accessor", "reads the committed balance of an address without consulting the per-transaction balance buffer first: a debit made earlier in the same transaction is ignored and Commit writes the stale sum back")
 			}
 		}
 	}
-	r.Floor("C04-R7", 2, "EnvImp.getBalance, WasmEnv.getBalance")
+	if rule == "C04-R7" {
+		r.Floor(rule, 2, "EnvImp.getBalance, WasmEnv.getBalance")
+	}
 	_ = n
 }
